@@ -355,7 +355,21 @@ also('C19', 'no in-place method is called on a copy.copy of a circuit (AL5); Cir
 also('C20', 'memo keys of index selections are never frozensets (FS1); a plain reshape of a tripartite tensor groups adjacent subsystems in ascending order (AR4); one function '
             'never cuts singular values and Gram eigenvalues at the same tolerance (T4).')
 
+# ---- clauses added with the round-5 rules
+also('C01', 'a buffer allocated as (a, b, ..) is never re-read as (b, a, ..) through reshape (RT1); no hidden-eps normalize helper in a trivialization map (HE1).')
+also('C03', 'a memo in a local dict inside a loop is keyed on every attribute of the loop variable its value reads (LM1: one placeholder shared by gates of different types); '
+            'set-typed parameters become sequences only through sorted() (SO2); the image buffer of to_unitary is complex by construction (U1).')
+also('C04', 'no backward method chooses its formula by array_equal / allclose / count_nonzero of an operator (A12); no divided difference with the pairwise difference of one '
+            'array with itself as denominator outside where() (SD1: degenerate spectra).')
+also('C05', 'no in-place floating-point update of a plain copy of an input (DT10: integer-typed states); partial transposes of the irrep blocks factorise with dimA first (P2); '
+            'eigenvectors are taken as columns (EV1 over the entangle modules).')
+also('C07', 'the Clifford export appends one state-vector gate per recorded gate and never fuses by multiplying into an earlier gate (H10).')
+also('C08', 'an xor-fold parity covers the whole index word (PAR1); the single-item flag is read before the flattening (ST3); every module-level memo is keyed on all inputs '
+            'of the stored value, control dependences included (MC1: with_sign).')
+also('C09', 'no unbounded integer of the Sp(2n,F2) bookkeeping is converted to a fixed-width NumPy integer (BI2).')
+also('C10', 'a total count is compared with x.size, never len(x) (LEN1); no use of the generator in a seed-accepting method is gated by object state left by earlier calls (S9).')
+
 for _p in sorted(CLAIMS):
     also(_p, 'no function outside the reviewed set of 24 memoised functions is decorated with lru_cache / cache (or keeps a module-level memo) while returning an unfrozen '
              'NumPy / torch object (MC3: no new shared mutable result in the modules of this property; package-wide in the thorough tier); no function of those modules writes in place into (a view of) an '
-             'array it was given (PU1, incl. `x op= v` on an array parameter).')
+             'array it was given (PU1, incl. `x op= v` on an array parameter); every module-level memo is keyed on all inputs of the stored value (MC1).')
